@@ -20,6 +20,7 @@ K01 = [
     Skeleton("s14_def_names", {"main.py": "def {0}({1}):\n    return {1}\ndef {2}({3}):\n    return {0}({3}) + 1\nprint({2}(1))\n"}),
     Skeleton("s15_ctor_and_call_keywords", {"main.py": "class kls:\n    def __init__(self, {0}):\n        self.val = {0}\n    def __call__(self, {1}):\n        return self.val * {1}\n{2} = kls({0}=3)\nprint({2}({1}=14))\n"}),
     Skeleton("s16_one_line_defs", {"main.py": "def {0}({1}): {2} = {1} + 1; return {2}\ndef outer({3}):\n    def {0}({3}): return {3} + 1\n    return {0}({3})\nprint({0}(1), outer(2))\n"}),
+    Skeleton("s17_multiline_fstring", {"main.py": "{0} = 1\n{1} = 2\n{2} = f\"\"\"<{{0}}>\n[{{1}}] {{0}}\"\"\"\nprint({2})\n"}),
     Skeleton("m01_two_modules", {"mod1.py": "{0} = 1\ndef {1}({2}):\n    return {2} + {0}\n", "main.py": "import mod1\nfrom mod1 import {3}\nprint(type(mod1.{4}).__name__, type({3}).__name__)\n"}),
     Skeleton("m02_from_alias", {"mod1.py": "{0} = 1\n{1} = 2\n", "main.py": "from mod1 import {0} as {2}\n{3} = 5\nprint({2}, {3})\n"}),
     Skeleton("m03_package_relative", {"pkg/__init__.py": "", "pkg/aa.py": "{0} = 7\n", "pkg/bb.py": "from . import aa\nfrom .aa import {1}\ndef {2}():\n    return aa.{0} + {1}\n", "main.py": "from pkg.bb import {3}\nprint({3}())\n"}),
